@@ -475,4 +475,3 @@ example : Ab *ᵥ ![1, 1, 0] = ![1, 1, 0] := by
 end Symfc.LinAlg
 
 /-! ## Axiom audit -/
-
